@@ -266,6 +266,22 @@ Proof.
     + destruct (Nat.ltb_spec i (n - 1)); [reflexivity|lia].
 Qed.
 
+Lemma tridiag_constructors_lemma (sub main sup : list T) (a b c : T) (n : nat) :
+  (1 <= length main -> length sub = length main - 1 -> length sup = length main - 1 ->
+     exists t, with_vecs sub main sup = Ok t /\ wfT t /\ tn t = length main /\
+               tsub t = sub /\ tmain t = main /\ tsup t = sup) /\
+  (1 <= length main -> (length sub <> length main - 1 \/ length sup <> length main - 1) ->
+     with_vecs sub main sup = Panic Guard) /\
+  (1 <= n -> exists t, with_elements a b c n = Ok t /\ wfT t /\ tn t = n /\
+     forall i j, i < n -> j < n -> dense t i j =
+       if i =? j then b else if i =? j + 1 then a else if i + 1 =? j then c else zero).
+Proof.
+  split; [|split].
+  - exact (with_vecs_spec sub main sup).
+  - exact (with_vecs_rejects sub main sup).
+  - exact (with_elements_spec a b c n).
+Qed.
+
 (* the views together, as pinned in Props/C05.v *)
 Lemma tridiag_views_lemma t : wfT t -> 1 <= tn t ->
   (forall i j, i < tn t -> j < tn t -> in_band i j -> tindex t i j = Ok (dense t i j)) /\
